@@ -3,6 +3,7 @@
 package checks
 
 import (
+	"math"
 	"fmt"
 	"math/rand"
 	"os"
@@ -192,6 +193,19 @@ func C02(e *Env) {
 				}
 				if rng.Intn(25) == 0 {
 					reqs = append(reqs, wire.P(wire.OpOpen, ob.rel)) // re-open
+				}
+			}
+			// offsets with the top bit set: the request's offset field is unsigned; as a signed position such
+			// an offset is negative, or wraps to a position inside the object when it is taken modulo 2^64
+			for _, uo := range []uint64{1 << 63, 1<<63 + 1, 1<<63 + 2048, 1<<63 + uint64(ob.size)/2, math.MaxUint64, math.MaxUint64 - 2047, math.MaxUint64 - uint64(ob.size), math.MaxUint64 - uint64(ob.size)/2} {
+				if !e.Thorough && rng.Intn(3) != 0 {
+					continue
+				}
+				lim := []uint32{1, 2048, 70000}[rng.Intn(3)]
+				reqs = append(reqs, wire.Read(lim, uo))
+				run.Sig("%s %s off=top-bit-set lim=%d READ buf=%d", ob.kind, sizeClassB(ob.size), lim, targets[ti].buf)
+				if len(unsat) < 5 && rng.Intn(2) == 0 {
+					unsat = append(unsat, wire.Crit(lim, uo))
 				}
 			}
 			list = append(list, sess{ob, reqs, ti})
